@@ -56,6 +56,23 @@ def mutate_chars(rng, s, pool, n=None):
     return "".join(s)
 
 
+def blow_up_number(rng, s, pool):
+    """Replace one numeric field of s (a digit run, or put one after a sign / H / ':' / '%') by a huge digit run."""
+    k = rng.choice([10, 100, 309, 310, 400, 640, 999, 1000, 1001, 4299, 4300, 4301, 6000])
+    d = rng.choice("123456789") + (rng.choice("0123456789") * (k - 1) if rng.random() < 0.7 else
+                                   "".join(rng.choice("0123456789") for _ in range(k - 1)))
+    spots = [i for i, ch in enumerate(s) if ch in "0123456789+-H:%@["]
+    if not spots:
+        return s + d
+    i = rng.choice(spots)
+    if s[i] in "0123456789":
+        j = i
+        while j < len(s) and s[j] in "0123456789":
+            j += 1
+        return s[:i] + d + s[j:]
+    return s[:i + 1] + d + s[i + 1:]
+
+
 def hostile_selfies(rng, seeds=()):
     """One hostile decoder input with a class tag."""
     x = rng.random()
@@ -69,6 +86,8 @@ def hostile_selfies(rng, seeds=()):
     if x < 0.72:
         pool = MODERN + LEGACY + LEGACY
         return "legacy", "".join(rng.choice(pool) for _ in range(rng.randint(1, 20)))
+    if x < 0.76 and seeds:
+        return "digits", blow_up_number(rng, rng.choice(list(seeds) + ["[13CH3][N+1][Fe+2][C@@H1][=Ring2][Branch3]"]), None)
     if x < 0.80:
         k = rng.choice([10, 100, 640, 1000, 1001, 4299, 4300, 4301, 6000])
         form = rng.choice(["[%sC]", "[C+%s]", "[C-%s]", "[%sCH1-%s]", "[CH%s]", "[C@@H1+%s]", "[=%sFe]", "[%sCexpl]", "[C+%sexpl]", "[Ring%s]", "[Branch%s]", "[C:%sexpl]"])
@@ -99,6 +118,10 @@ def hostile_smiles(rng, seeds=()):
     if x < 0.70:
         pool = list(seeds[:200]) + SMILES_SEEDS if seeds else SMILES_SEEDS
         return "mutated", mutate_chars(rng, rng.choice(pool), SMILES_CHARS)
+    if x < 0.74:
+        pool = (list(seeds[:200]) if seeds else []) + SMILES_SEEDS + ["c1cccc[c+]1", "c1cc[nH+]cc1", "[13cH]1ccccc1", "c1cc[n+](C)cc1",
+                                                                      "C[C@@H]1CC[NH2+]C1", "[Fe+2].[O-]C(=O)c1ccccc1", "C%12CCC%12", "[CH3:7]O"]
+        return "digits", blow_up_number(rng, rng.choice(pool), None)
     if x < 0.77:
         k = rng.choice([10, 100, 640, 1000, 1001, 4299, 4300, 4301, 6000])
         form = rng.choice(["[%sC]", "[C+%s]", "[C-%s]", "[%sCH-%s]", "[CH%s]", "[C:%s]", "C%%%s", "C%s", "[%sc]1ccccc1"])
